@@ -178,7 +178,7 @@ def shard(n, seed, known, max_steps):
 
 def run(ctx):
     jobs = [(k, core.subseed(ctx.seed, "r", i), ctx.known_sigs, ctx.n(16, 40))
-            for i, k in enumerate(core.split(ctx.n(400, 6000), 16))]
+            for i, k in enumerate(core.split(ctx.n(800, 8000), 16))]
     stats = core.Stats()
     for s in core.pmap(shard, jobs):
         stats.merge(s)
